@@ -292,6 +292,8 @@ def direct_real(c, o):
     if o.get("error"):
         return [("C01:raised:real-run", o["error"] + " " + o.get("tb", "")[-300:])]
     n = c["nlive"]
+    if c["kind"] == "resumed" and len(o.get("resumed_at", [])) != len(c["resume_after"]):
+        bad.append(("C01:resume-did-not-happen", f"resumed at {o.get('resumed_at')} for the requested stops {c['resume_after']}"))
     for e in o["events"]:
         if e["kind"] == "init":
             ll = [p[1] for p in e["live"]]
@@ -474,6 +476,9 @@ def real_cases(chk):
             # the default uninformed proposal on a prior that is NaN outside its support, drawn from a wider box
             {"kind": "real", "proposal": "rejection", "nlive": 40, "seed": 15 + chk.seed, "stopping": 2.0, "full_every": 20,
              "variant": "nan-wide", "max_iteration": 150},
+            # checkpoint -> death -> FlowSampler(resume=True), twice, across the switch to the flow proposal
+            {"kind": "resumed", "proposal": "flow", "nlive": 40, "seed": 16 + chk.seed, "stopping": 2.0, "max_epochs": 10,
+             "maximum_uninformed": 40, "resume_after": [30, 90], "max_iteration": 160},
         ]
     out = []
     for i, (prop, nl) in enumerate([("analytic", 10), ("analytic", 100), ("rejection", 50), ("flow", 50), ("flow", 100),
@@ -491,6 +496,14 @@ def real_cases(chk):
     for j, nl in enumerate((30, 80)):
         out.append({"kind": "real", "proposal": "rejection", "nlive": nl, "seed": 210 + j + chk.seed, "stopping": 1.0,
                     "full_every": 50, "variant": "nan-wide", "max_iteration": 300, "dims": 2 + j})
+    out.append({"kind": "resumed", "proposal": "rejection", "nlive": 30, "seed": 220 + chk.seed, "stopping": 1.0,
+                "resume_after": [10, 11, 60], "checkpoint_interval": 1})
+    out.append({"kind": "resumed", "proposal": "flow", "nlive": 60, "seed": 221 + chk.seed, "stopping": 1.0, "max_epochs": 20,
+                "maximum_uninformed": 60, "resume_after": [50, 130, 250], "max_iteration": 400, "variant": "asym", "dims": 3,
+                "reparameterisations": {"x2": "default", "x0": "default"}})
+    out.append({"kind": "resumed", "proposal": "flow", "nlive": 50, "seed": 222 + chk.seed, "stopping": 1.0, "max_epochs": 20,
+                "maximum_uninformed": 50, "resume_after": [75, 76], "checkpoint_interval": 1, "max_iteration": 300,
+                "variant": "flat-corner"})
     return out
 
 
@@ -533,6 +546,8 @@ def run(chk):
             chk.count("real-run iterations", o["final"]["iteration"])
             chk.count("real-run proposal draws", len(o["stream"]))
             chk.nontriv(("real", c["proposal"], c["nlive"], c["seed"]))
+            if c["kind"] == "resumed":
+                chk.count("real-run resumes", len(o.get("resumed_at", [])))
         for key, what in direct_real(c, o):
             chk.fail(key, what, {"case": c, "failure_key": key})
     # ---- correspondence inside Coq -----------------------------------------------------------
@@ -562,7 +577,7 @@ def run(chk):
         if bad and not chk.failures:
             b = min(bad, key=lambda j: len(lits[j]))
             chk.notes.append("smallest disagreeing case: " + json.dumps(cases[idx[b]])[:3000])
-    rl = [(c, o) for c, o in zip(rcases, routs) if not o.get("error")]
+    rl = [(c, o) for c, o in zip(rcases, routs) if not o.get("error") and not o.get("no_model")]
     if rl:
         lits_r = []
         for c, o in list(rl):
